@@ -30,6 +30,8 @@ func init() {
 			ruleC08TxComplete(c)
 			ruleListenerRegistered(c, "C08.REGISTER", "AddTxCompleteListener", "txCompleteListeners")
 			ruleCommitHook(c, "C08.COMMITHOOK")
+			ruleImplState(c, "C08.IMPLSTATE")
+			rulePostCommitAll(c, "C08.POSTALL")
 			ruleRegistrationReachesPhase(c, "C08.LISTENERREG", "post")
 			ruleListenersKept(c, "C08.LISTENERSKEPT", "txCompleteListeners")
 			ruleC08Actions(c)
@@ -51,6 +53,8 @@ func init() {
 		Rules: func(c *Ctx) {
 			ruleC15ScanFilter(c)
 			ruleChildUpdateHandled(c, "C15.CHILDUPDATE")
+			ruleNeverNilCtor(c, "C15.NEWBUCKET")
+			ruleEntityBucketDescent(c, "C15.ENTITYBUCKET")
 			ruleValidIds(c, "C15.VALID")
 			ruleOwnPresence(c, "C15.PRESENT")
 			ruleC15Inherit(c)
@@ -92,6 +96,7 @@ func init() {
 			// operation's own holder (the entity bucket), and create-or-not is fixed by the entry point
 			ruleErrHolderShared(c, "C16.HOLDER")
 			ruleCreateIsCreate(c, "C16.CREATECTX")
+			ruleSameBucket(c, "C16.SAMEBUCKET")
 			// a refusal recorded in the child's error holder must survive the hand-over to the parent context
 			ruleParentChain(c, "C16.CHAIN")
 		},
